@@ -319,6 +319,12 @@ func cmdPrompt(args []string) int {
 			map[string]any{"name": "nm"}, engineOpts{cancelAfterMs: -1}, 4*time.Second)
 		res["kind"] = "prompt"
 		res["shape"] = kind
+		// every shape but the last leaves no producible output; in the last one the output becomes producible (with the
+		// wait-optional member absent) as soon as step a has finished, because its crashed stage cannot happen any more
+		res["expect"] = "error"
+		if kind == "wait-optional-on-crashed-of-succeeding-step" {
+			res["expect"] = "output"
+		}
 		w.emit(res)
 	}
 	return 0
